@@ -65,7 +65,7 @@ pub fn violation_json(v: &Violation) -> String {
         .str("layer", v.layer)
         .str("kind", &v.kind)
         .num("seq", v.seq)
-        .num("step", v.step as i64)
+        .num("step", if v.step == u32::MAX { -1 } else { v.step as i64 })
         .str("detail", &v.detail)
         .build()
 }
@@ -265,10 +265,10 @@ pub fn replay_session(
         }
         for v in &po.judged.violations {
             text.push_str(&format!(
-                "!! {} at seq {} (step {}): {}\n",
+                "!! {} at seq {} ({}): {}\n",
                 v.signature(),
                 v.seq,
-                v.step as i64,
+                if v.step == u32::MAX { "implicit end-of-run step".to_string() } else { format!("plan step {}", v.step) },
                 v.detail
             ));
         }
